@@ -5,6 +5,7 @@ import Mathlib.Analysis.SpecialFunctions.Pow.Real
 import Mathlib.Analysis.SpecialFunctions.Arcosh
 import Mathlib.Analysis.SpecialFunctions.Trigonometric.Inverse
 import Mathlib.Analysis.Real.Sqrt
+import Mathlib.Algebra.Order.Floor.Ring
 import UmapModel.Scalar
 
 namespace Umap
@@ -19,5 +20,7 @@ noncomputable def realT : Transc ℝ where
   cos := Real.cos
   asin := Real.arcsin
   acosh := Real.arcosh
+  trunc := fun x => if 0 ≤ x then ⌊x⌋ else ⌈x⌉
+  ofInt := fun z => (z : ℝ)
 
 end Umap
